@@ -10,6 +10,7 @@ package main
 //                           real struct (one byte term per nat word); only the methods below exist
 
 import (
+	"crypto/x509"
 	"fmt"
 	"go/token"
 	"go/types"
@@ -238,6 +239,25 @@ func init() {
 				out = append(out, cp)
 				return Tuple{out, Iface{}}
 			}
+		}
+		if b, ok := e.concBytes(raw); ok {
+			// concrete input: ask the real parser (the engine is a Go program), keep the results opaque
+			cs, err := x509.ParseCertificates(b)
+			if err != nil {
+				return Tuple{[]Value(nil), e.newError("x509: " + err.Error())}
+			}
+			T := e.namedType("crypto/x509", "Certificate")
+			for _, c := range cs {
+				v := e.zero(T)
+				cp := &v
+				e.setField(cp, T, "Raw", e.concSlice(c.Raw))
+				e.setField(cp, T, "RawIssuer", e.concSlice(c.RawIssuer))
+				out = append(out, cp)
+			}
+			if out == nil {
+				out = []Value{}
+			}
+			return Tuple{out, Iface{}}
 		}
 		p.uniq++
 		okv := e.symScalar(fmt.Sprintf("x509.parse.ok#%d", p.uniq), 8)
